@@ -14,6 +14,36 @@ def registered : List EOp → List Cb
       | .reset => []
       | _ => acc) []
 
+/-- Does `unconnect(*items)` hit the registration `c`?  Read item by item (and not field by field as
+the code's filter does): a callback item hits the registrations of that callback (Python `==`: a bound method
+`obj.on_x` evaluated again is equal to the registered one); an object item hits the registrations filtered
+on that sender and those whose callback is a bound method of that object. -/
+def hits (items : List UItem) (c : Cb) : Bool :=
+  items.any fun it =>
+    match it with
+    | .cb i => i == c.id
+    | .obj o => c.sender == some o || c.owner == some o
+
+/-- is a registration `c` still there after the operations `later` that follow its `connect`?  It is, unless
+a `reset` or an `unconnect` hitting it comes later -/
+def survives (c : Cb) (later : List EOp) : Bool :=
+  later.all fun op =>
+    match op with
+    | .reset => false
+    | .unconnect items => !hits items c
+    | _ => true
+
+/-- "the currently registered callbacks", written without any state and independently of the code's filter:
+a `connect` of the history contributes its registration (in history order) exactly when it did not raise and
+survives everything after it -/
+def registeredFwd : List EOp → List Cb
+  | [] => []
+  | .connect r :: later =>
+    (match connectCb r with
+     | some c => if survives c later then [c] else []
+     | none => []) ++ registeredFwd later
+  | _ :: later => registeredFwd later
+
 /-- the callbacks an emit must call, in order: registered for the event, sender filter absent or
 equal, registration order with `last` ones after all others -/
 def shouldCall (reg : List Cb) (event : String) (sender : Nat) : List Nat :=
@@ -109,6 +139,15 @@ def emitsSpecG (result : Call → Nat) (pre : List EOp) : List EOp → List EOut
     (if silencedAfter pre then ⟨[], .none⟩ else emitSpec result (registered pre) e s a kw) ::
       emitsSpecG result (pre ++ [.emit e s a kw]) ops
   | op :: ops => emitsSpecG result (pre ++ [op]) ops
+
+/-- expected outcomes of all emits of ANY history, with "the currently registered callbacks" read off the
+history by `registeredFwd` (no fold, no use of the code's filter) and silencing by `silencedAfter` -/
+def emitsSpecF (result : Call → Nat) (pre : List EOp) : List EOp → List EOut
+  | [] => []
+  | .emit e s a kw :: ops =>
+    (if silencedAfter pre then ⟨[], .none⟩ else emitSpec result (registeredFwd pre) e s a kw) ::
+      emitsSpecF result (pre ++ [.emit e s a kw]) ops
+  | op :: ops => emitsSpecF result (pre ++ [op]) ops
 
 /-- The behaviour of the recording stubs the correspondence run registers as callbacks (and of the
 non-vacuity examples): a stub answers a number made of its identity, the sender it was handed and the
